@@ -110,7 +110,11 @@ class Cutter:
         for idx, text in items[pos:]:
             chunks.append(text)
             self.tags[idx] = me
-        self.files[me] = "\n".join(chunks)
+        text = "\n".join(chunks)
+        if chunks and chunks[-1].startswith("include ") and r.random() < 0.3:
+            text = text.rstrip("\n")      # the include line ends the file, without a line end
+            self.features.add("include-at-eof")
+        self.files[me] = text
 
     def cut_out(self, seg, dir_comps, depth, closed=None):
         """moves `seg` into one or more new files; returns the include pattern (relative to dir_comps)."""
@@ -281,6 +285,28 @@ def negative_cases(prefix):
         "invalid pattern: unclosed `[`")
     add("root.ledger", {"root.ledger": ""}, {"fake": "ok", "prod": "ok", "delivered": 0}, "empty root file")
     add("m/root.ledger", {"m/root.ledger": "include ../e/*.ledger\n"}, dict(nf, delivered=0), "glob in an empty directory", dirs=["e"])
+    # a file matched by a glob is included again later (no cycle): every match of the glob must have left the include stack
+    ok = {"fake": "ok", "prod": "ok"}
+    for again in ("a.ledger", "b.ledger", "c.ledger"):
+        add("root.ledger", {"root.ledger": "include common/*.ledger\n\n; mid\n\ninclude common/%s\n" % again,
+                            "common/a.ledger": "; a\n", "common/b.ledger": "; b\n", "common/c.ledger": "; c\n"},
+            dict(ok, delivered=5), "a glob over three files, then a second include of one of them (%s)" % again)
+    add("m/root.ledger", {"m/root.ledger": "include ../common/*.ledger\n\ninclude sub/x.ledger\n", "common/a.ledger": "; a\n", "common/b.ledger": "; b\n",
+                          "m/sub/x.ledger": "; x\n\ninclude ../../common/a.ledger\n"},
+        dict(ok, delivered=4), "a glob match included again from a nested file through `..`")
+    # the include line is the very last thing of the file (no line end after it)
+    add("root.ledger", {"root.ledger": "; a\n\ninclude b.ledger", "b.ledger": "; b\n"}, dict(ok, delivered=2), "include as the last line, ended by end of file")
+    add("root.ledger", {"root.ledger": "include sub/*.ledger", "sub/a.ledger": "; a\n\ninclude ../c.ledger", "c.ledger": "; c"},
+        dict(ok, delivered=2), "nested includes each ended by end of file")
+    # dot-files and wildcards when the include path goes through `..` or starts with `./` (both file systems)
+    add("m/root.ledger", {"m/root.ledger": "include ../parts/*.ledger\n", "parts/.ledger": "; dot\n", "parts/a.ledger": "; a\n"},
+        dict(ok, delivered=1), "dot-file `.ledger` next to a real match, pattern through `..`: only the real match is delivered")
+    add("m/root.ledger", {"m/root.ledger": "include ../parts/*.ledger\n", "parts/.ledger": "; dot\n"}, dict(nf, delivered=0),
+        "dot-file `.ledger` as the only candidate, pattern through `..`")
+    add("root.ledger", {"root.ledger": "include ./parts/*.ledger\n", "parts/.ledger": "; dot\n", "parts/b.ledger": "; b\n"},
+        dict(ok, delivered=1), "dot-file `.ledger` next to a real match, pattern starting with `./`")
+    add("m/n/root.ledger", {"m/n/root.ledger": "include ../../parts/?*.ledger\n", "parts/.x.ledger": "; dot\n", "parts/y.ledger": "; y\n"},
+        dict(ok, delivered=1), "dot-file against `?*`, pattern through `../..`")
     return out
 
 
